@@ -1,0 +1,37 @@
+//go:build verif
+
+package remote
+
+import (
+	"context"
+
+	"github.com/foxcpp/maddy/framework/dns"
+	"github.com/foxcpp/maddy/framework/module"
+)
+
+// Export shims for the verification harness (/verif, property C13): one
+// mx_auth.dane delivery object serving several MX candidates of a message.
+// Add-only, compiled only with the build tag "verif".
+
+// VerifNewDANEDelivery returns the per-message object of mx_auth.dane (what
+// danePolicy.Start returns) using the given extended resolver. PrepareConn and
+// CheckConn are called on it through the module.DeliveryMXAuthPolicy interface.
+func VerifNewDANEDelivery(r *dns.ExtResolver) module.DeliveryMXAuthPolicy {
+	return verifDANEPolicy(r).Start(nil)
+}
+
+// VerifDANELookup is the waitable result of a TLSA lookup.
+type VerifDANELookup interface {
+	GetContext(ctx context.Context) (interface{}, error)
+}
+
+// VerifDANECurrentLookup returns the lookup result holder the delivery object
+// currently waits on in CheckConn (nil before the first PrepareConn). It lets
+// a harness see that a lookup has delivered its result without sleeping.
+func VerifDANECurrentLookup(p module.DeliveryMXAuthPolicy) VerifDANELookup {
+	d, ok := p.(*daneDelivery)
+	if !ok || d.tlsaFut == nil {
+		return nil
+	}
+	return d.tlsaFut
+}
